@@ -289,6 +289,9 @@ func optN(tag uint64, ok bool) string {
 
 // runStep executes one script step; returns false if the step was skipped
 func (m *memRun) runStep(o Step) bool {
+	if o.Op == "burst" {
+		return m.runBurst(o)
+	}
 	bg := context.Background()
 	t0 := time.Now()
 	var sop string
@@ -495,6 +498,12 @@ type memResult struct {
 func nkOf(ops []Step) int {
 	nk := 1
 	for _, o := range ops {
+		if o.Op == "burst" {
+			if n := nkOf(o.B); n > nk {
+				nk = n
+			}
+			continue
+		}
 		if o.K+1 > nk {
 			nk = o.K + 1
 		}
